@@ -742,9 +742,29 @@ class Program:
             slot = slot_of_ptr(p)
             if slot:
                 out |= self.slot_impls(slot)
-            elif p.is_const and p.gname:
-                # load from a global function-pointer variable
-                pass
+            else:
+                # load from (an element of) a global table of function pointers: every function in its initialiser
+                q = p
+                while q.is_inst and q.op in ("getelementptr", "bitcast"):
+                    q = q.ops[0]
+                if q.is_const and q.gname:
+                    g = None
+                    for u in ([unit] if unit is not None else []) + list(self.units):
+                        if u is not None and q.gname in u.globals and u.globals[q.gname].get("init"):
+                            g = (u, u.globals[q.gname])
+                            break
+                    if g is not None:
+                        def scan(enc, uu):
+                            if enc[0] in ("g", "e"):
+                                c = Const(enc)
+                                if c.gname:
+                                    f = self.fn(c.gname, uu)
+                                    if f is not None:
+                                        out.add(f)
+                            elif enc[0] == "a":
+                                for el in enc[2]:
+                                    scan(el, uu)
+                        scan(g[1]["init"], g[0])
             return out
         return out
 
